@@ -9,6 +9,7 @@ import (
 	"bytes"
 	"encoding/json"
 	"fmt"
+	"math"
 	"math/rand"
 	"os"
 	"os/exec"
@@ -48,7 +49,9 @@ func normalizeRecs(recs []ref.C06Rec) {
 		for k, v := range recs[i].Attrs {
 			switch t := v.(type) {
 			case float64:
-				recs[i].Attrs[k] = int(t)
+				if math.Abs(t) < 1<<53 {
+					recs[i].Attrs[k] = int(t)
+				} // else: a value beyond the int64 range stays a float
 			case map[string]any:
 				m := map[string]int{}
 				for a, b := range t {
